@@ -11,7 +11,9 @@ Claimed (partial), decided on the real MIR of tx-pool/src/block_assembler:
      `max_uncles_num` are ever selected; candidates of another epoch/target are dropped from the candidate set;
  m4  `update_uncles` / `update_proposals` / `update_transactions`: an incremental update is adopted only if the recomputed total stays within `max_block_bytes`.
 
-Outside: the package selection itself (`CommitTxsScanner::txs_to_commit`, `package_proposals`: multi-index containers), cellbase/DAO/extension contents (C06 covers the reward and
+ m5  `TxSelector::txs_to_commit` on a three-entry proposed pool (a parent/child pair and an independent entry): limits respected, totals exact, parents first, nothing twice.
+
+Outside: larger pools and the score order (multi-index containers), `package_proposals`, cellbase/DAO/extension contents (C06 covers the reward and
 DAO arithmetic), the template's acceptance as a whole-program run.
 """
 import os
@@ -376,17 +378,167 @@ def m4_incremental_updates(S):
     S.witness(ctx, ob, "update_transactions_reach_adopted", pre, whenpk)
 
 
-OBLIGATIONS = [m1_template_size, m2_update_full, m3_prepare_uncles, m4_incremental_updates]
+def m5_txs_to_commit(S):
+    """`TxSelector::txs_to_commit` (tx-pool/src/component/tx_selector.rs) on a proposed pool of three entries: E0 and E1 without pooled ancestors, E2 a child of E1; sizes, cycles
+    and the two limits are symbolic, the ancestor aggregates equal a recomputation (C11), the score order is E0, E2, E1 or E2, E0, E1 (the child's package first).  The set
+    containers carry symbolic ids (symmap), the modified-entries index is a list with at most one entry.  Decided: the packaged transactions never exceed the size or the cycle limit,
+    the reported totals are the sums over the packaged entries, nothing is packaged twice, and the child is never packaged without its parent before it (a package is admitted as a
+    whole: accumulated + package size / cycles within the limits)."""
+    from mir2smt import symmap as SM
+    from mir2smt.exec import ListV, EnumV
+    from mir2smt.srcinfo import struct_fields, field_index
+    ob = "C13.m5"
+    f = _find(S, lambda x: x.short == "txs_to_commit" and "tx_selector.rs" in x.name and "{closure" not in x.name and len(x.params) == 3, "TxSelector::txs_to_commit")
+    te = struct_fields("tx-pool/src/component/entry.rs", "TxEntry")
+    ts = field_index("tx-pool/src/component/tx_selector.rs", "TxSelector")
+    for order in ((0, 2, 1), (2, 0, 1)):
+        ctx = S.ctx(unwind=14)
+        ctx.uninterpreted_unknown_calls = True
+        ctx.prune_with_solver = True
+        ctx.max_paths = 20000
+        SL, CL = ctx.int("size_limit", "usize"), ctx.int("cycles_limit", "u64")
+        sz = [ctx.int(f"E{k}_size", "usize") for k in range(3)]
+        cy = [ctx.int(f"E{k}_cycles", "u64") for k in range(3)]
+        for k in range(3):
+            for j in range(k):
+                ctx.add_side(T.ne(ctx.int(f"id!id_E{k}", "u64").t, ctx.int(f"id!id_E{j}", "u64").t))
+        anc_sz = [sz[0].t, sz[1].t, T.add(sz[1].t, sz[2].t)]
+        anc_cy = [cy[0].t, cy[1].t, T.add(cy[1].t, cy[2].t)]
+        anc_n = [1, 1, 2]
+
+        def mk(k, asz=None, acy=None, an=None):
+            vals = []
+            for fld in te:
+                if fld == "size":
+                    vals.append(sz[k])
+                elif fld == "cycles":
+                    vals.append(cy[k])
+                elif fld == "ancestors_size":
+                    vals.append(IntV(anc_sz[k] if asz is None else asz, "usize"))
+                elif fld == "ancestors_cycles":
+                    vals.append(IntV(anc_cy[k] if acy is None else acy, "u64"))
+                elif fld == "ancestors_count":
+                    vals.append(IntV(anc_n[k] if an is None else an, "usize"))
+                elif fld in ("fee", "ancestors_fee", "descendants_fee"):
+                    vals.append(AggV((ctx.int(f"E{k}_{fld}", "u64"),), "Capacity"))
+                elif fld in ("descendants_size", "descendants_count"):
+                    vals.append(ctx.int(f"E{k}_{fld}", "usize"))
+                elif fld in ("descendants_cycles", "timestamp"):
+                    vals.append(ctx.int(f"E{k}_{fld}", "u64"))
+                else:
+                    vals.append(OpaqueV(f"E{k}.{fld}", "?"))
+            return AggV(tuple(vals), "TxEntry")
+        E_ = [mk(k) for k in range(3)]
+        i_rtx = te.index("rtx")
+
+        def who(ex, v):
+            v = deref(ex, v)
+            if isinstance(v, AggV) and v.ty == "TxEntry":
+                return int(re.match(r"E(\d)", v.fields[i_rtx].name).group(1))
+            m_ = re.search(r"id_E(\d)", getattr(v, "name", ""))
+            if m_:
+                return int(m_.group(1))
+            raise Stop(f"not an entry / id: {str(v)[:60]}")
+        idv = lambda k, d="ProposalShortId": OpaqueV(f"id_E{k}", d)
+        mkset = lambda ks: SM.MapV(tuple((ctx.int(f"id!id_E{k}", "u64").t, None, idv(k)) for k in ks), "HashSet<ProposalShortId>", True)
+
+        def mod_list(ex, ref):
+            v = deref(ex, ref)
+            if not isinstance(v, ListV):
+                raise Stop("modified entries index is not the list model")
+            return v
+
+        def m_next_best(ex, c, a, d):
+            v = mod_list(ex, a[0])
+            if len(v.items) > 1:
+                raise Stop("more than one modified entry (ordering by score is outside this obligation)")
+            return mk_option(bool(v.items), ex.ctx.ref_to(v.items[0]) if v.items else None, d)
+
+        def m_find(ex, a):
+            v = mod_list(ex, a[0])
+            k = who(ex, a[1])
+            for i, it in enumerate(v.items):
+                if who(ex, it) == k:
+                    return v, i
+            return v, None
+
+        def m_get(ex, c, a, d):
+            v, i = m_find(ex, a)
+            if c.endswith("contains_key"):
+                return BoolV(i is not None)
+            return mk_option(i is not None, ex.ctx.ref_to(v.items[i]) if i is not None else None, d)
+
+        def m_remove(ex, c, a, d):
+            from mir2smt.builtins import _wr
+            v, i = m_find(ex, a)
+            if i is None:
+                return mk_option(False, None, d)
+            _wr(ex, a[0], ListV(v.items[:i] + v.items[i + 1:], v.ty))
+            return mk_option(True, v.items[i], d)
+
+        def m_insert(ex, c, a, d):
+            from mir2smt.builtins import _wr
+            v = mod_list(ex, a[0])
+            _wr(ex, a[0], ListV(v.items + (deref(ex, a[1]) if isinstance(a[1], RefV) else a[1],), v.ty))
+            return UNIT
+        ctx.env = list(E.LOGGING_OFF) + [
+            (E.rx(r"PoolMap::sorted_proposed_iter$"), lambda ex, c, a, d: AggV((ListV(tuple(E_[k] for k in order), "Vec<?>"), IntV(0, "usize")), "ListIterRef")),
+            (E.rx(r"TxEntry::proposal_short_id$"), lambda ex, c, a, d: idv(who(ex, a[0]), d)),
+            (E.rx(r"PoolMap::calc_ancestors$"), lambda ex, c, a, d: mkset([1] if who(ex, a[1]) == 2 else [])),
+            (E.rx(r"PoolMap::calc_descendants$"), lambda ex, c, a, d: mkset([2] if who(ex, a[1]) == 1 else [])),
+            (E.rx(r"PoolMap::has_proposed$"), E.const_bool(True)),
+            (E.rx(r"PoolMap::(get_proposed|get)$"), lambda ex, c, a, d: mk_option(True, ex.ctx.ref_to(E_[who(ex, a[1])]), d)),
+            (E.rx(r"MultiIndexModifiedTxMap::next_best_entry$"), m_next_best),
+            (E.rx(r"MultiIndexModifiedTxMap::(get|contains_key)$"), m_get),
+            (E.rx(r"MultiIndexModifiedTxMap::remove$"), m_remove),
+            (E.rx(r"MultiIndexModifiedTxMap::insert_entry$"), m_insert),
+            (E.rx(r"<TxEntry as (Clone|ToOwned)>::(clone|to_owned)$|<(ckb_types::packed::)?ProposalShortId as Clone>::clone$"), lambda ex, c, a, d: deref(ex, a[0])),
+            (E.rx(r"<&&TxEntry as PartialOrd>::gt$"), lambda ex, c, a, d: ex.ctx.bool("modified_scores_higher")),
+            (E.rx(r"get_transaction_weight$"), lambda ex, c, a, d: ex.ctx.fresh_of_type("w", d)),
+        ] + SM.handlers(r"(ckb_types::packed::)?ProposalShortId") + SM.EXTRAS + list(E.LIST_ADAPTORS)
+        init = {"pool_map": ctx.ref_to(OpaqueV("pool_map", "PoolMap")), "entries": ListV((), "Vec<TxEntry>"), "modified_entries": ListV((), "MultiIndexModifiedTxMap"),
+                "fetched_txs": SM.MapV((), "HashSet<ProposalShortId>", True), "failed_txs": SM.MapV((), "HashSet<ProposalShortId>", True)}
+        me = AggV(tuple(init[n] for n, _ in sorted(ts.items(), key=lambda kv: kv[1])), "TxSelector")
+        ps = S.run(ctx, f, [me, SL, CL])
+        tag = "order_" + "".join(f"E{k}" for k in order)
+        big = 1 << 40
+        pre = [T.le(SL.t, big), T.le(CL.t, big)] + [T.le(x.t, big) for x in sz + cy] + [T.ge(x.t, 1) for x in sz]
+        S.prove(ctx, ob, f"{tag}_no_panic", pre, T.not_(cond_of(panics(ps))))
+        rs = returns(ps)
+        goals_lim, goals_sum, goals_once, goals_parent = [], [], [], []
+        for p in rs:
+            v = p.value
+            if not (isinstance(v, AggV) and len(v.fields) == 3 and isinstance(v.fields[0], ListV)):
+                goals_lim.append(T.not_(p.cond()))
+                continue
+            ks = [who(None, x) for x in v.fields[0].items]
+            tot_s, tot_c = 0, 0
+            for k in ks:
+                tot_s, tot_c = T.add(tot_s, sz[k].t), T.add(tot_c, cy[k].t)
+            goals_sum.append(T.implies(p.cond(), T.and_(T.eq(as_int(v.fields[1]), tot_s), T.eq(as_int(v.fields[2]), tot_c))))
+            goals_lim.append(T.implies(p.cond(), T.and_(T.le(tot_s, SL.t), T.le(tot_c, CL.t))))
+            goals_once.append(T.implies(p.cond(), bool(len(set(ks)) == len(ks))))
+            goals_parent.append(T.implies(p.cond(), bool(2 not in ks or (1 in ks and ks.index(1) < ks.index(2)))))
+        S.prove(ctx, ob, f"{tag}_packaged_transactions_stay_within_the_size_and_cycle_limits", pre, T.and_(*goals_lim) if goals_lim else False)
+        S.prove(ctx, ob, f"{tag}_reported_totals_are_the_sums_over_the_packaged_entries", pre, T.and_(*goals_sum) if goals_sum else False)
+        S.prove(ctx, ob, f"{tag}_nothing_is_packaged_twice", pre, T.and_(*goals_once) if goals_once else False)
+        S.prove(ctx, ob, f"{tag}_a_child_is_packaged_only_after_its_pooled_parent", pre, T.and_(*goals_parent) if goals_parent else False)
+        full = T.or_(*[p.cond() for p in rs if isinstance(p.value, AggV) and isinstance(p.value.fields[0], ListV) and sorted(who(None, x) for x in p.value.fields[0].items) == [0, 1, 2]])
+        S.prove(ctx, ob, f"{tag}_everything_is_packaged_when_everything_fits", pre + [T.le(T.add(T.add(sz[0].t, sz[1].t), sz[2].t), SL.t), T.le(T.add(T.add(cy[0].t, cy[1].t), cy[2].t), CL.t)], full)
+        S.witness(ctx, ob, f"{tag}_reach_package_rejected_for_cycles_after_an_earlier_admission", pre, T.and_(T.le(anc_cy[2], CL.t), T.gt(T.add(cy[0].t, anc_cy[2]), CL.t), T.le(cy[0].t, CL.t), T.le(T.add(T.add(sz[0].t, sz[1].t), sz[2].t), SL.t)))
+
+
+OBLIGATIONS = [m1_template_size, m2_update_full, m3_prepare_uncles, m4_incremental_updates, m5_txs_to_commit]
 
 ENGINE = "M"
 LEVEL = "other"
 EXPLANATION = ("The block assembler's size accounting (TemplateSize), the limits it hands to the packagers (update_full and the incremental updates) and the uncle selection (prepare_uncles) "
                "are executed symbolically from their MIR with the pool, snapshot and consensus accessors as environment symbols; the solver decides the arithmetic and the selection rule.")
-BOUNDS = {"prepare_uncles": "1..3 candidates, cap 1..2", "update_full": "2 packaged proposals, 2 packaged transactions", "outside": "CommitTxsScanner / package_proposals (multi-index containers), cellbase, DAO and extension contents, whole-template verification"}
+BOUNDS = {"prepare_uncles": "1..3 candidates, cap 1..2", "update_full": "2 packaged proposals, 2 packaged transactions", "txs_to_commit": "3 proposed entries (one parent/child pair), 2 score orders, <= 1 modified entry", "outside": "larger pools / score order (multi-index containers), package_proposals, cellbase, DAO and extension contents, whole-template verification"}
 ASSUMPTIONS = ["pool, snapshot and consensus accessors are environment symbols (arbitrary values)", "TemplateSize invariant: each part is contained in the total"]
 TRUSTED = []
 LEVEL_TEXT = ("Decided on the real MIR: template size totals replace exactly the changed part; update_full reserves the bytes of the freshly packaged proposals before it sizes the transaction package and "
-              "hands the consensus cycle/byte/proposal limits to the packagers; uncle candidates are selected by exactly the rule the verifier applies and never more than the consensus maximum. "
+              "hands the consensus cycle/byte/proposal limits to the packagers; uncle candidates are selected by exactly the rule the verifier applies and never more than the consensus maximum; the transaction selector keeps a bounded pool within the size and cycle limits, parents first. "
               "That a complete template passes full verification (package selection, cellbase, DAO, extension) is outside and not claimed.")
 LEVEL_NOTE = "Partial claim (size accounting, limits, uncle selection). Package selection, cellbase/DAO/extension, whole-template verification: outside."
 TECHNIQUE = "symbolic execution of rustc MIR (incl. coroutine body) -> integer-theory SMT (cvc5 + z3)"
